@@ -387,7 +387,10 @@ pub fn main(args: &Args) -> i32 {
     let queue: Arc<Mutex<VecDeque<(u64, String)>>> = Arc::new(Mutex::new(VecDeque::new()));
     let done = Arc::new(Mutex::new(false));
     let viols: Arc<Mutex<Vec<J>>> = Arc::new(Mutex::new(Vec::new()));
-    let traces: Arc<Mutex<Vec<(u64, Vec<J>)>>> = Arc::new(Mutex::new(Vec::new()));
+    // recorded steps are kept as text (a parsed JSON tree is several times larger) and their number is capped: the
+    // walk of a large model would otherwise hold tens of gigabytes until the end
+    let max_traces = args.num("max-traces", 20000) as usize;
+    let traces: Arc<Mutex<Vec<(u64, Vec<String>)>>> = Arc::new(Mutex::new(Vec::new()));
     let stats: Arc<Mutex<(u64, std::collections::BTreeMap<String, u64>, Vec<J>)>> = Arc::new(Mutex::new((0, Default::default(), Vec::new())));
     let mut handles = Vec::new();
     for _ in 0..threads {
@@ -400,7 +403,7 @@ pub fn main(args: &Args) -> i32 {
                         Some(e) => e,
                         None => continue,
                     };
-                    let want_trace = trace_every > 0 && n % trace_every == 0;
+                    let want_trace = trace_every > 0 && n % trace_every == 0 && traces.lock().unwrap().len() < max_traces;
                     let (v, tr) = run_edge(&edge, want_trace);
                     {
                         let mut st = stats.lock().unwrap();
@@ -412,7 +415,9 @@ pub fn main(args: &Args) -> i32 {
                         }
                     }
                     if !tr.is_empty() {
-                        traces.lock().unwrap().push((n, tr));
+                        let lines: Vec<String> = tr.iter().map(|e| e.to_string()).collect();
+                        drop(tr);
+                        traces.lock().unwrap().push((n, lines));
                     }
                     if let Some(v) = v {
                         let mut vs = viols.lock().unwrap();
